@@ -151,6 +151,8 @@ def build_harness(name="vrt", sources=None, flavour="fiber", extra_flags=()):
     # drop stale harness builds of the same name/flavour
     for d in os.listdir(bd):
         if d.startswith("h_%s_%s_" % (name, flavour)) and os.path.join(bd, d) != od:
+            if time.time() - os.path.getmtime(os.path.join(bd, d)) < 3 * 3600:
+                continue  # possibly in use by a check that started before the harness sources changed
             shutil.rmtree(os.path.join(bd, d), ignore_errors=True)
     os.makedirs(od, exist_ok=True)
     if sources is None:
